@@ -447,7 +447,7 @@ class BaseProperty(base.BaseObject):
 
         # Python2 legacy code for loading odml style tuples from YAML or JSON.
         # Works from Python 3 onwards.
-        if self._dtype.endswith("-tuple") and not self._validate_values(new_value):
+        if self._dtype.lower().endswith("-tuple") and not self._validate_values(new_value):
             t_count = int(self._dtype.split("-")[0])
             new_value = odml_tuple_import(t_count, new_value)
 
@@ -836,7 +836,7 @@ class BaseProperty(base.BaseObject):
 
             type_check = dtypes.infer_dtype(new_value[0])
             if not (type_check == "string" and self.dtype in dtypes.special_dtypes) \
-                    and not self.dtype.endswith("-tuple"):
+                    and not self.dtype.lower().endswith("-tuple"):
                 msg = "passed value data type found "
                 msg += "(\"%s\") does not match expected dtype \"%s\"!" % (type_check,
                                                                            self._dtype)
@@ -867,7 +867,7 @@ class BaseProperty(base.BaseObject):
 
         new_value = self._convert_value_input(obj)
 
-        if self._dtype.endswith("-tuple"):
+        if self._dtype.lower().endswith("-tuple"):
             t_count = int(self._dtype.split("-")[0])
             new_value = odml_tuple_import(t_count, new_value)
 
@@ -902,7 +902,7 @@ class BaseProperty(base.BaseObject):
         if len(new_value) > 1:
             raise ValueError("odml.property.append: Use extend to add a list of values!")
 
-        if self._dtype.endswith("-tuple"):
+        if self._dtype.lower().endswith("-tuple"):
             t_count = int(self._dtype.split("-")[0])
             new_value = odml_tuple_import(t_count, new_value)
 
@@ -911,7 +911,7 @@ class BaseProperty(base.BaseObject):
 
             type_check = dtypes.infer_dtype(new_value[0])
             if not (type_check == "string" and self.dtype in dtypes.special_dtypes) \
-                    and not self.dtype.endswith("-tuple"):
+                    and not self.dtype.lower().endswith("-tuple"):
                 msg = "odml.Property.append: passed value data type found "
                 msg += "(\"%s\") does not match expected dtype \"%s\"!" % (type_check,
                                                                            self._dtype)
@@ -950,7 +950,7 @@ class BaseProperty(base.BaseObject):
         if len(new_value) > 1:
             raise ValueError("odml.property.insert: Use extend to add a list of values!")
 
-        if self._dtype.endswith("-tuple"):
+        if self._dtype.lower().endswith("-tuple"):
             t_count = int(self._dtype.split("-")[0])
             new_value = odml_tuple_import(t_count, new_value)
 
@@ -959,7 +959,7 @@ class BaseProperty(base.BaseObject):
 
             type_check = dtypes.infer_dtype(new_value[0])
             if not (type_check == "string" and self.dtype in dtypes.special_dtypes) \
-                    and not self.dtype.endswith("-tuple"):
+                    and not self.dtype.lower().endswith("-tuple"):
                 msg = "odml.Property.insert: passed value data type found "
                 msg += "(\"%s\") does not match expected dtype \"%s\"!" % (type_check,
                                                                            self._dtype)
